@@ -169,8 +169,9 @@ def orderOf (t : List Byte) (bytewidth : Int) : Order :=
 
 /-- nist_read_header + nist_open + the codec init + validate_sfinfo + validate_psf -/
 def readHeader (bs : List Byte) : ParseRes :=
-  -- a short read leaves `char psf_header [1026]` (a stack array) unwritten
-  if bs.length < 1024 then .unmodelled else
+  -- psf_binheader_readf "b" clears the destination (memset) before header_read, and a short header_read copies nothing:
+  -- on a file shorter than the header `psf_header` is 1024 NUL bytes, "Not a NIST file." (SFE_NIST_BAD_HEADER)
+  if bs.length < 1024 then .err else
   let t := headerText bs
   if isPrefix kBad t then .err else                               -- SFE_NIST_CRLF_CONVERISON
   if !isPrefix kMagic t then .err else                            -- SFE_NIST_BAD_HEADER
